@@ -105,6 +105,9 @@ func ChildMain(prop, tier string, base uint64, worker, of, from int, scale float
 	w.Flush()
 }
 
+// childStartProcs: GOMAXPROCS environment of worker process k (0 = inherit).
+var childStartProcs = []int{0, 3, 6, 1, 12, 5, 2, 7, 0, 9, 4, 10, 0, 3, 6, 8}
+
 // CheckConfig configures a supervisor run.
 type CheckConfig struct {
 	Prop      string
@@ -234,6 +237,12 @@ func superviseChild(cfg CheckConfig, k, from int, deadline time.Time, a *agg, jo
 	}
 	cmd := exec.Command(cfg.Exe, "child", "-prop", cfg.Prop, "-tier", cfg.Tier, "-base", fmt.Sprint(cfg.Base), "-worker", fmt.Sprint(k), "-of", fmt.Sprint(cfg.Procs),
 		"-from", fmt.Sprint(from), "-scale", fmt.Sprint(cfg.Scale), "-deadline", fmt.Sprint(deadline.UnixNano()/1e6), "-hang", cfg.Hang.String(), "-root", cfg.Root)
+	// worker processes are started with different GOMAXPROCS values
+	// (package initialisation may look at it); within a run the value is
+	// then set from the tape
+	if sp := childStartProcs[k%len(childStartProcs)]; sp > 0 {
+		cmd.Env = append(os.Environ(), fmt.Sprintf("GOMAXPROCS=%d", sp))
+	}
 	stdout, _ := cmd.StdoutPipe()
 	var stderr strings.Builder
 	cmd.Stderr = &limitedWriter{w: &stderr, n: 1 << 16}
@@ -404,6 +413,7 @@ func (a *agg) add(res Result, jobs []Job) {
 // ReplayFile is the on-disk form of a minimised violation.
 type ReplayFile struct {
 	Confirmed  bool      `json:"reproduced_in_fresh_process"`
+	StartProcs int       `json:"start_gomaxprocs,omitempty"`
 	Property   string    `json:"property"`
 	Profile    string    `json:"profile"`
 	Tier       string    `json:"tier"`
@@ -421,6 +431,12 @@ type ReplayFile struct {
 
 // SubprocRunner runs one tape in a fresh process.
 func SubprocRunner(exe, root string, p *Profile, tier string, seed uint64, local int, hang time.Duration) Runner {
+	return SubprocRunnerProcs(exe, root, p, tier, seed, local, hang, 0)
+}
+
+// SubprocRunnerProcs is SubprocRunner with the GOMAXPROCS environment
+// of the fresh process set (0 = inherit).
+func SubprocRunnerProcs(exe, root string, p *Profile, tier string, seed uint64, local int, hang time.Duration, startProcs int) Runner {
 	return func(vals []uint64) Result {
 		f, err := os.CreateTemp("", "verifsim-tape-")
 		if err != nil {
@@ -430,6 +446,9 @@ func SubprocRunner(exe, root string, p *Profile, tier string, seed uint64, local
 		json.NewEncoder(f).Encode(vals)
 		f.Close()
 		cmd := exec.Command(exe, "one", "-profile", p.Name, "-tier", tier, "-seed", fmt.Sprint(seed), "-local", fmt.Sprint(local), "-tape", f.Name(), "-hang", hang.String(), "-root", root)
+		if startProcs > 0 {
+			cmd.Env = append(os.Environ(), fmt.Sprintf("GOMAXPROCS=%d", startProcs))
+		}
 		var stderr strings.Builder
 		cmd.Stderr = &limitedWriter{w: &stderr, n: 1 << 16}
 		out, err := cmd.Output()
@@ -470,7 +489,7 @@ func minimiseAndWrite(cfg CheckConfig, v Result) string {
 		if budget > 60*time.Second {
 			budget = 60 * time.Second
 		}
-		run = SubprocRunner(cfg.Exe, cfg.Root, p, cfg.Tier, v.Seed, local, h)
+		run = SubprocRunnerProcs(cfg.Exe, cfg.Root, p, cfg.Tier, v.Seed, local, h, v.StartProcs)
 	} else {
 		run = InProcRunner(p, cfg.Tier, v.Seed, local, cfg.Hang)
 	}
@@ -482,6 +501,17 @@ func minimiseAndWrite(cfg CheckConfig, v Result) string {
 		vals = regenerate(v.Seed)
 	}
 	best, res, tries := Shrink(run, vals, v.Viol.Property, v.Viol.Kind, budget)
+	if !slow && (res.Viol == nil || res.Viol.Kind != v.Viol.Kind) && v.StartProcs != StartProcs {
+		// not reproducible in this process: the violation may depend on
+		// the GOMAXPROCS the worker process was started with
+		slow = true
+		b2 := budget
+		if b2 > 60*time.Second {
+			b2 = 60 * time.Second
+		}
+		run = SubprocRunnerProcs(cfg.Exe, cfg.Root, p, cfg.Tier, v.Seed, local, cfg.Hang, v.StartProcs)
+		best, res, tries = Shrink(run, vals, v.Viol.Property, v.Viol.Kind, b2)
+	}
 	viol := v.Viol
 	trace := v.Trace
 	if res.Viol != nil && res.Viol.Kind == v.Viol.Kind {
@@ -493,11 +523,11 @@ func minimiseAndWrite(cfg CheckConfig, v Result) string {
 	// the replay file must reproduce in a fresh process: confirm it
 	confirmed := false
 	if !slow {
-		chk := SubprocRunner(cfg.Exe, cfg.Root, p, cfg.Tier, v.Seed, local, cfg.Hang)(best)
+		chk := SubprocRunnerProcs(cfg.Exe, cfg.Root, p, cfg.Tier, v.Seed, local, cfg.Hang, v.StartProcs)(best)
 		confirmed = chk.Viol != nil && chk.Viol.Kind == viol.Kind
 		if !confirmed && len(best) != len(vals) {
 			// fall back to the unminimised tape
-			chk = SubprocRunner(cfg.Exe, cfg.Root, p, cfg.Tier, v.Seed, local, cfg.Hang)(vals)
+			chk = SubprocRunnerProcs(cfg.Exe, cfg.Root, p, cfg.Tier, v.Seed, local, cfg.Hang, v.StartProcs)(vals)
 			if chk.Viol != nil && chk.Viol.Kind == viol.Kind {
 				best, confirmed = vals, true
 				trace = chk.Trace
@@ -506,7 +536,7 @@ func minimiseAndWrite(cfg CheckConfig, v Result) string {
 	} else {
 		confirmed = res.Viol != nil && res.Viol.Kind == v.Viol.Kind
 	}
-	rf := ReplayFile{Confirmed: confirmed, Property: cfg.Prop, Profile: v.Profile, Tier: cfg.Tier, BaseSeed: cfg.Base, RunSeed: v.Seed, Index: v.Index, Local: local,
+	rf := ReplayFile{Confirmed: confirmed, StartProcs: v.StartProcs, Property: cfg.Prop, Profile: v.Profile, Tier: cfg.Tier, BaseSeed: cfg.Base, RunSeed: v.Seed, Index: v.Index, Local: local,
 		Violation: *viol, Tape: best, OrigDraws: v.Draws, Tries: tries, ReplayMode: "exact", Trace: trace}
 	if strings.HasPrefix(viol.Kind, "outputs-differ") && strings.Contains(viol.Detail, "repeat") {
 		rf.ReplayMode = "repeat-until-divergence"
@@ -547,7 +577,7 @@ func Replay(exe, root, path string, hang time.Duration) int {
 		fmt.Printf("replay: unknown profile %s\n", rf.Profile)
 		return 2
 	}
-	run := SubprocRunner(exe, root, p, rf.Tier, rf.RunSeed, rf.Local, hang)
+	run := SubprocRunnerProcs(exe, root, p, rf.Tier, rf.RunSeed, rf.Local, hang, rf.StartProcs)
 	tries := 1
 	if rf.ReplayMode == "repeat-until-divergence" {
 		tries = 64
